@@ -383,6 +383,8 @@ PROFILES = {
     "failures": {"kinds": ["custom", "customlife", "gen", "gen", "ping", "timer"], "fail_rate": 0.6, "malformed": 0.3},
     "idles": {"kinds": ["ping", "chan", "timer"], "cb_ops": 0.8, "idle_scripts": 0.9, "idle_burst": 0.35, "misc_idle": 0.6, "blockon": 0.25},
     "reentrant": {"kinds": KINDS, "cb_ops": 1.0, "script_rate": 0.95},
+    # C03's single-threaded histories: ping sources only, many handle operations outside the documented protocol
+    "pingonly": {"kinds": ["ping"], "max_sources": 4, "malformed": 0.35},
 }
 
 
